@@ -20,6 +20,9 @@ if not os.environ.get('UAVERIF_VARIANTS'):
         pid = os.path.basename(os.path.dirname(pf))
         # UAVERIF_BENIGN_ALL=1: every check must stay silent on it, not only the one of its own property
         props = ['all'] if os.environ.get('UAVERIF_BENIGN_ALL') else [pid]
+        # UAVERIF_BENIGN_PROPS=C05,C07: every refactoring against exactly these checks (after a change to their rules)
+        if os.environ.get('UAVERIF_BENIGN_PROPS'):
+            props = os.environ['UAVERIF_BENIGN_PROPS'].split(',')
         variants.append({'id': 'benign-' + pid + '-' + os.path.basename(pf)[:-5], 'kind': 'benign', 'props': props, 'own': pid, 'patch': pf, 'edits': []})
 
 def run(v):
